@@ -45,6 +45,25 @@ fn main() {
         };
         std::process::exit(code);
     }
+    if args[0] == "exec-run" {
+        // simdec exec-run <ID> <quick|thorough> <run> <replay-path>: write the trace of that run as a replay file,
+        // then execute it alone. Used to find which run makes the process die.
+        if args.len() < 5 {
+            usage();
+        }
+        let tier = if args[2] == "thorough" { Tier::Thorough } else { Tier::Quick };
+        let st = Settings::from_env(tier).unwrap();
+        let run: u64 = args[3].parse().unwrap_or(0);
+        let path = Path::new(&args[4]);
+        let code = match args[1].as_str() {
+            "C04" => framework::exec_run(&props::c04::C04, &st, run, path),
+            "C12" => framework::exec_run(&props::c12::C12, &st, run, path),
+            "C14" => framework::exec_run(&props::c14::C14, &st, run, path),
+            "C17" => framework::exec_run(&props::c17::C17, &st, run, path),
+            _ => usage(),
+        };
+        std::process::exit(code);
+    }
     let tier = match args[1].as_str() {
         "quick" => Tier::Quick,
         "thorough" => Tier::Thorough,
